@@ -478,8 +478,12 @@ class Ctx:
             "wall_s": round(wall, 2),
             "violations": len(viol_lines),
         }
-        (VERIF / "evidence").mkdir(exist_ok=True)
-        (VERIF / "evidence" / f"{self.prop}.json").write_text(json.dumps(ev, indent=1, default=str) + "\n")
+        # evidence/<id>.json describes a run against /repo itself; runs against a scratch worktree (VERIF_REPO) or the
+        # forced-search self-test write next to it, so they never replace it
+        scratch = os.environ.get("VERIF_FORCE_SEARCH") == "1" or os.path.realpath(str(REPO)) != os.path.realpath("/repo")
+        ed = VERIF / "evidence" / ".scratch" if scratch else VERIF / "evidence"
+        ed.mkdir(parents=True, exist_ok=True)
+        (ed / f"{self.prop}.json").write_text(json.dumps(ev, indent=1, default=str) + "\n")
         for l in self.known_lines:
             print(l)
         for l in viol_lines:
